@@ -243,6 +243,8 @@ def c20_programs(tier, seed, rnd):
             if name in ("degen", "initarm"):
                 p["smallgrid"] = 1          # many shapes, few settings (crashes on degenerate shapes do not depend on the version)
             progs.append(p)
+    # the same programs as DAGs: structurally equal sub-trees are one shared Python object (every second program)
+    progs += [dict(p, share=1) for p in progs if has_repeated_subtree(p)][::2]
     # programs with subroutines (recursion, by-reference parameters, routine-private variables - some never initialised)
     rp, rres = c02_programs(tier, seed, rnd, caps=(300, 80) if q else (6000, 4000))
     for p in rp:
@@ -251,6 +253,20 @@ def c20_programs(tier, seed, rnd):
     results += rres
     progs += big_programs(tier)
     return progs, results
+
+
+def has_repeated_subtree(prog):
+    """some non-leaf sub-tree occurs twice in one routine (only then does sharing objects change anything)"""
+    import json
+    for root in [prog["main"]] + [r["body"] for r in prog.get("rt", [])]:
+        seen = set()
+        for nd in gen.walk(root):
+            if nd["a"]:
+                k = json.dumps(nd, sort_keys=True)
+                if k in seen:
+                    return True
+                seen.add(k)
+    return False
 
 
 def c20_known(prog, clause, site, result):
